@@ -670,6 +670,14 @@ def t13(run: Run, prog: Program):
                                isinstance(tg, ast.Attribute) and tg.attr == M
                                for tg in st.targets) for st in ast.walk(f.node))):
                 continue
+            # an accessor that stores the matrix it is handed (`self._R = R`)
+            # builds nothing
+            if all(isinstance(st, ast.Assign) and isinstance(st.value, ast.Name) and
+                   st.value.id in f.params
+                   for st in ast.walk(f.node) if isinstance(st, ast.Assign) and any(
+                       isinstance(tg, ast.Attribute) and tg.attr in (M, "_" + M)
+                       for tg in st.targets)) and any(e.func is f for e in own):
+                continue
             n += 1
             reads = {e.cell for e in iter_events(t) if e.kind == "read"}
             ok = "missing_value_indices" in reads
